@@ -502,7 +502,7 @@ impl Scanner {
         let next1 = self.next_char(fac_start);
         if numlit.is_empty() {
             return Err(self.error_at(self.pos + skipped, "invalid radix point"));
-        } else if radix == 16 && (int_part.len() == 2) && (fac_part.len() == 1) {
+        } else if radix != 10 && (int_part.len() == 2) && (fac_part.len() <= 1) {
             return Err(self.error_at(self.pos + skipped, "mantissa has no digits"));
         } else if radix != 10 && matches!(next1, Some('e' | 'E')) {
             return Err(self.error_at(self.pos + skipped, "E exponent requires decimal mantissa"));
